@@ -286,6 +286,10 @@ func ruleUnmarshalDeleg(e *Env, rule, pkg string, fn *ssa.Function, name, ruleAr
 			e.S.Bad(rule, site, name, "does not parse through the package-level Parser with rule "+ruleArg+" (asked: "+lf.String()+")", e.Pos(fn), "")
 		case v == 0 && got == "nil" && final == ext(call, 0):
 			e.S.Ok(rule, site, name+" ok", "receiver := Parser(data, "+ruleArg+"), returns nil", e.Pos(fn))
+		case v == 1 && strings.HasPrefix(got, "fmt.Errorf(") && strings.Contains(got, ext(call, 1)) && final == "old" &&
+			strings.Contains(strings.ReplaceAll(got, ext(call, 1), ""), "data"):
+			// whatever the parser refused — a text beyond the length limit included — would be repeated by the wrapper
+			e.S.Bad(rule, site, name+" error", "the wrapper puts the input itself into its message ("+got+"): the parser's input-too-long error then reproduces the input", e.Pos(fn), "")
 		case v == 1 && strings.HasPrefix(got, "fmt.Errorf(") && strings.Contains(got, ext(call, 1)) && final == "old":
 			e.S.Ok(rule, site, name+" error", "parser error returned wrapped, receiver untouched", e.Pos(fn))
 		default:
